@@ -1,4 +1,108 @@
-(* placeholder until Proofs/LineRdProofs.v lands: keeps the pipeline end-to-end *)
-From Coq Require Import List NArith.
-Require Import GV.Spec.LineSpec GV.Model.LineRd.
-Theorem c04_placeholder : True. Proof. exact I. Qed.
+(* Properties/C04.v — line-number rows equal the DWARF state machine; sequences are consistent.
+   Only statements; proofs are in Proofs/LineRd*.v. Model: Model/LineRd.v (mirror of src/read/line.rs),
+   spec: Spec/LineSpec.v (DWARF 5 §6.2 over Z). *)
+From Coq Require Import List NArith ZArith Bool.
+From Coq.Strings Require Import Byte.
+Require Import GV.Base.Res GV.Base.Byt GV.Base.Ints GV.Model.Leb GV.Model.Prim GV.Spec.LineSpec GV.Model.LineRd.
+Require Import GV.Proofs.LineRdBase GV.Proofs.LineRdMono.
+Import ListNotations.
+Local Open Scope N_scope.
+
+(* ------------------------------------------------------------------------------------------------
+   Clause 3 of the property: "for any input whatsoever, row addresses never decrease within a
+   sequence and never exceed the address size".
+
+   hdr_ok h   := line_range >= 1, maximum_operations_per_instruction >= 1, opcode_base <= 255 and
+                 1 <= address_size <= 8: what LineProgramHeader::parse establishes (parse_header_hdr_ok)
+                 when the caller's address size is a real one. The program bytes (h_program h) are
+                 arbitrary.
+   rows_ghost := the rows of `rows()` paired with a ghost flag "a tombstoned end_sequence row was dropped
+                 since the previous returned row".
+   ------------------------------------------------------------------------------------------------ *)
+
+(* FULL STATEMENT (fails on the faithful model, see monotone_any_input_refuted and known_findings.txt):
+     forall dbg be h, hdr_ok h -> rows_monotone (fst (rows_model dbg be h))
+   where a sequence is what a consumer sees: the rows up to and including an end_sequence row. *)
+Theorem monotone_any_input_refuted :
+  exists dbg be h, hdr_ok h /\ ~ rows_monotone (fst (rows_model dbg be h)).
+Proof. exact monotone_rows_refuted_lemma. Qed.
+
+(* the witness: set_address 0x1000; copy; set_address 0; end_sequence; set_address 0x500; copy; end_sequence *)
+Example monotone_witness_rows : forall dbg,
+  map (fun r => (r_addr r, r_end r)) (fst (rows_model dbg false witness_header)) =
+  [(4096, false); (1280, false); (1280, true)].
+Proof. exact witness_rows. Qed.
+
+(* Weakened to inputs outside the known class (no end_sequence row swallowed after a row of its
+   sequence): for ALL program bytes and all headers, both build modes. *)
+Theorem monotone_any_input : forall dbg be h, hdr_ok h ->
+  let l := fst (fst (rows_ghost dbg be h)) in
+  fst (rows_model dbg be h) = map fst l /\
+  (~ swallowed_end l ->
+   rows_monotone (fst (rows_model dbg be h)) /\
+   Forall (fun r => r_addr r <= amask h) (fst (rows_model dbg be h))).
+Proof. exact monotone_unless_swallowed. Qed.
+
+(* Without any exclusion: between two consecutive returned rows the address does not decrease unless
+   the first is an end_sequence row or an end_sequence instruction was executed (and dropped) between
+   them — i.e. monotone within every sequence delimited by executed DW_LNE_end_sequence instructions —
+   and every returned row is inside the address size and is not a tombstone row. *)
+Theorem monotone_between_end_sequences : forall dbg be h, hdr_ok h ->
+  let l := fst (fst (rows_ghost dbg be h)) in
+  (forall p q, adjacent l p q -> r_end (fst p) = false -> snd q = false -> r_addr (fst p) <= r_addr (fst q)) /\
+  Forall (fun r => r_addr r <= amask h /\ r_tomb r = false) (fst (rows_model dbg be h)).
+Proof. exact monotone_between_ends. Qed.
+
+(* the same for a whole unit given as bytes: header decode + rows, no well-formedness hypothesis *)
+Theorem monotone_any_unit : forall dbg be asz0 bs h, 1 <= asz0 <= 8 ->
+  parse_header dbg be asz0 bs = Ok h ->
+  let l := fst (fst (rows_ghost dbg be h)) in
+  (~ swallowed_end l -> rows_monotone (fst (rows_model dbg be h))) /\
+  Forall (fun r => r_addr r <= amask h) (fst (rows_model dbg be h)) /\
+  snd (rows_model dbg be h) <> SPanic /\ snd (rows_model dbg be h) <> SFuel.
+Proof. exact monotone_any_unit_lemma. Qed.
+
+Theorem parse_header_hdr_ok : forall dbg be asz0 bs h,
+  parse_header dbg be asz0 bs = Ok h -> 1 <= asz0 <= 8 -> hdr_ok h.
+Proof. exact parse_header_ok. Qed.
+
+(* the hypotheses are satisfiable by non-trivial instances *)
+Example hdr_ok_example : hdr_ok sample_header /\ hdr_ok witness_header.
+Proof. exact hdr_ok_examples. Qed.
+Example not_swallowed_example : forall dbg,
+  ~ swallowed_end (fst (fst (rows_ghost dbg false sample_header))) /\
+  map (fun p => (r_addr (fst p), r_line (fst p), r_end (fst p), snd p)) (fst (fst (rows_ghost dbg false sample_header))) =
+  [(4100, 2, false, false); (4104, 2, false, false); (4104, 2, true, false);
+   (2048, 1, false, false); (2048, 1, true, false)].
+Proof. exact not_swallowed_sample. Qed.
+
+(* ------------------------------------------------------------------------------------------------
+   No panic, and the fuel of the model loops suffices (feeds C01), both build modes.
+   ------------------------------------------------------------------------------------------------ *)
+
+(* LineInstruction::parse: every byte string, EVERY header record (no hypothesis at all) *)
+Theorem no_panic_parse_insn : forall dbg be h inp,
+  parse_insn dbg be h inp <> Panic /\ parse_insn dbg be h inp <> OutOfFuel.
+Proof. exact parse_insn_np. Qed.
+
+(* ... and it consumes at least one byte and returns a remainder of its input *)
+Theorem parse_insn_consumes : forall dbg be h inp i rest,
+  parse_insn dbg be h inp = Ok (i, rest) ->
+  (exists p, inp = p ++ rest) /\ (length rest < length inp)%nat /\ insn_ok h i.
+Proof. exact parse_insn_consumes_lemma. Qed.
+
+(* LineRow::execute on any decoded instruction, from any row inside the address size *)
+Theorem no_panic_execute : forall dbg h r i, hdr_ok h -> insn_ok h i -> r_addr r <= amask h ->
+  execute dbg h r i <> Panic /\ execute dbg h r i <> OutOfFuel.
+Proof. exact no_panic_execute_lemma. Qed.
+
+(* rows(), a caller that keeps calling next_row after errors, and sequences() *)
+Theorem no_panic_rows : forall dbg be h, hdr_ok h ->
+  (snd (rows_model dbg be h) <> SPanic /\ snd (rows_model dbg be h) <> SFuel) /\
+  (snd (rows_cont dbg be h) <> SPanic /\ snd (rows_cont dbg be h) <> SFuel) /\
+  (sequences dbg be h <> Panic /\ sequences dbg be h <> OutOfFuel).
+Proof. exact no_panic_all. Qed.
+
+Check monotone_any_input_refuted : exists dbg be h, hdr_ok h /\ ~ rows_monotone (fst (rows_model dbg be h)).
+Check no_panic_parse_insn : forall dbg be h inp,
+  parse_insn dbg be h inp <> Panic /\ parse_insn dbg be h inp <> OutOfFuel.
